@@ -63,6 +63,7 @@ type SuiteSpec struct {
 	NoopPackages []string          `json:"noopPackages"`
 	Replace      map[string]string `json:"replace"` // callee -> "importpath.Func" ("" = no-op)
 	Harnesses    []HarnessSpec     `json:"harnesses"`
+	Globals      map[string]string `json:"globals"` // "import/path.Var" -> "zero": never initialised from the package initialiser
 	Assumptions  []string          `json:"assumptions"`
 	Stubs        []string          `json:"stubs"`
 }
@@ -83,6 +84,7 @@ type Program struct {
 	RepoDir       string
 	VerifDir      string
 	Files         map[string]string // overlay virtual path -> real file
+	KnownLabels   map[string]bool   // "harness|label" of listed known findings (exploration continues past them)
 }
 
 // PrepareModfile writes build/repo_alt.mod(.sum) with the quic-go stub replacement.
@@ -278,6 +280,9 @@ func (m *Machine) globalObj(g *ssa.Global) *Obj {
 	o.Label = g.String()
 	m.globals[g] = o
 	if g.Pkg != nil && !m.P.initPkgSet[g.Pkg] {
+		if m.P.Suite.Globals[g.Pkg.Pkg.Path()+"."+g.Name()] == "zero" {
+			return o
+		}
 		m.demandInit(g)
 	}
 	return o
